@@ -13,6 +13,7 @@ from .common import Case, neq_any, rel_close
 from . import level2 as L2
 
 PROPERTY = "C08"
+LEVEL = "fault_enumeration"
 FUNCTIONS = [
     "magpylib._src.fields.field_wrap_BH:getBH_level2",
     "magpylib._src.fields.field_wrap_BH:getBH_level1",
@@ -203,10 +204,10 @@ def _faults(C):
         def on_model(env):
             return {"key": f"C08|getBH_level2|state-after-{'return' if how == 'return' else 'exception'}|values", "replay": dict(rp, env=env)}
 
-        C.oblige(tag + ".state-unchanged", p.pc + sc.assume, changed, on_model=on_model, inputs=sc.inputs, nice=False,
+        C.oblige(tag + ".state-unchanged", p.pc + sc.assume, changed, on_model=on_model, inputs=sc.inputs, nice=False, quat_groups=sc.quat_groups,
                  sample=f"after getBH_level2 {how} with faults {fired}: every position/orientation/pixel term identical to before")
         if out2 is not None:
-            C.oblige(tag + ".second-call-identical", p.pc + sc.assume, neq_any(out1, out2), on_model=on_model, inputs=sc.inputs, nice=False)
+            C.oblige(tag + ".second-call-identical", p.pc + sc.assume, neq_any(out1, out2), on_model=on_model, inputs=sc.inputs, nice=False, quat_groups=sc.quat_groups)
 
     paths = explore(run, max_paths=300 if C.tier == "quick" else 2000, on_path=on_path)
     C.decisions += sum(len(p.decisions) for p in paths)
@@ -281,7 +282,7 @@ def _argfault(C):
     C.obligations.append({"name": tag + ".structure", "status": "unsat", "witness": "sat"})
     C.oblige(tag + ".state-unchanged", CTX.pc + sc.assume, changed,
              on_model=lambda env: {"key": "C08|getBH_level2|state-after-exception|values", "replay": dict(rp, env=env)},
-             inputs=sc.inputs, nice=False, sample=f"getBH_level2 with {fault} raises {how} and leaves every pose term unchanged")
+             inputs=sc.inputs, nice=False, quat_groups=sc.quat_groups, sample=f"getBH_level2 with {fault} raises {how} and leaves every pose term unchanged")
 
 
 # ----------------------------------------------------------------------------- replay
